@@ -11,12 +11,13 @@ REGISTRY = {}
 # which oracle verdicts each property owns, and which part of the rendered state its theorems consume
 SEM = {
     'C01': dict(viol={'C01'}, phases={'ctx', 'paths', 'err'}, ctx_fields=None, ctx_kinds=None),
-    'C06': dict(viol={'C06'}, phases={'ctx', 'err'}, ctx_fields={'sizes', 'indices'}, ctx_kinds={'self'}),
+    'C06': dict(viol={'C06'}, phases={'ctx', 'err'}, ctx_fields={'sizes', 'indices'}, ctx_kinds={'self'}, exact=True),
     'C07': dict(viol={'C07'}, phases={'ctx', 'err'}, ctx_fields={'types'}, ctx_kinds={'self'}),
     'C08': dict(viol={'C08'}, phases={'ctx', 'err'}, ctx_fields={'rekey', 'close', 'aclose', 'sender'}, ctx_kinds={'self'}),
-    'C09': dict(viol={'C09'}, phases={'ctx', 'err'}, ctx_fields={'fee'}, ctx_kinds={'self'}),
+    'C09': dict(viol={'C09'}, phases={'ctx', 'err'}, ctx_fields={'fee'}, ctx_kinds={'self'}, exact=True),
     'C10': dict(viol={'C10'}, phases={'ctx', 'err'}, ctx_fields=None, ctx_kinds={'at', 'abs', 'rel'}),
     'C11': dict(viol={'C11'}, phases={'ast', 'err'}, ctx_fields=None, ctx_kinds=None),
+    'C03': dict(viol={'C03'}, phases={'ctx', 'paths', 'err'}, ctx_fields=None, ctx_kinds={'self'}, exact=True),
     'C02': dict(viol={'C02'}, phases={'paths', 'err'}, ctx_fields=None, ctx_kinds=None),
     'C04': dict(viol={'C04'}, phases={'cfg', 'func', 'err'}, ctx_fields=None, ctx_kinds=None),
     'C05': dict(viol={'C05'}, phases={'subs', 'func', 'err'}, ctx_fields=None, ctx_kinds=None),
@@ -28,7 +29,7 @@ def finding_explains(f, prop, field, shapes, pid):
     if pid not in f.get('properties', []): return False
     if f.get('shape') not in shapes: return False
     fl = f.get('fields')
-    if fl and field not in fl: return False
+    if fl and field not in fl and field.split(':')[-1] not in fl: return False
     return True
 
 
@@ -67,7 +68,8 @@ def make_items(cx, spec, nprog, nenv, streams=('corpus', 'fragment', 'shapes')):
         idxs = list(range(gen.N_DIRECT)); rng.shuffle(idxs)
         for i in idxs[:nd]:
             src, tags = gen.direct(cx.seed, i)
-            items.append({'name': f'direct/{cx.seed}/{i}', 'src': src, 'nenv': max(40, nenv // 2), 'seed': cx.seed, 'stream': 'direct'})
+            items.append({'name': f'direct/{cx.seed}/{i}', 'src': src, 'nenv': max(40, nenv // 2), 'seed': cx.seed, 'stream': 'direct',
+                          'exact': spec.get('exact', False)})
     if 'callfam' in streams:
         for i in range(gen.N_CALLFAM):
             src, tags = gen.callfam(cx.seed, i)
@@ -141,6 +143,9 @@ def classify(cx, pid, spec, results):
                         fid = f['id']; break
             if fid:
                 stats['attributed_' + fid] += 1
+                if fid not in cx.known_seen:
+                    what = next((f['what'] for f in cx.findings if f['id'] == fid), '')
+                    cx.known_seen[fid] = f"{what} [seen on {r['name']}: {v['detail'][:100]}]"
                 continue
             cx.violations.append({'kind': 'oracle', 'program': r['name'], 'prop': v['prop'], 'field': v['field'], 'where': v['where'],
                                   'detail': v['detail'], 'model_exhibits_it': v.get('in_other'), 'shapes': sorted(shapes),
@@ -238,3 +243,32 @@ def do_replay(cx, pid, spec, payload):
 
 for _pid in SEM:
     REGISTRY[_pid] = semantic_check(_pid)
+
+
+def c12_check(cx, replay=None):
+    spec = dict(viol={'C12'}, phases=set(), ctx_fields=None, ctx_kinds=None)
+    nprog, nenv = volumes(cx, 70, 60)
+    items = [it for it in make_items(cx, spec, nprog, nenv, ('corpus', 'fragment', 'callfam')) if it['stream'] != 'saved']
+    results = engine.run_items_with(engine.process_c12, items)
+    src_of = {it['name']: it['src'] for it in items}
+    diffs, npaths = [], 0
+    for r in results:
+        r['src'] = src_of.get(r['name'])
+        r.setdefault('diff', {})
+        npaths += r.get('npaths', 0)
+        if r['status'] == 'diff':
+            diffs.append(r)
+    # classification: reuse the generic one (diffs handled here because they are keyed by path)
+    for r in results:
+        d = r['diff']; r['diff'] = {}
+        if r['status'] == 'diff': r['status'] = 'ok'
+        r['_d'] = d
+    stats, _ = classify(cx, 'C12', spec, results)
+    if diffs:
+        cx.broken.append(f"correspondence (function graph / contexts per dispatch path) differs on {len(diffs)} of {len(results)} programs, e.g. {diffs[0]['name']}: {json.dumps(diffs[0]['_d'])[:600]}")
+    for r in results[:300]:
+        if r.get('npaths', 0) > 1 and len(cx.samples) < 4:
+            cx.samples.append({'program': r['name'], 'dispatch_paths': r['npaths'], 'source': (r['src'] or '')[:400], 'executions_starting_with_a_path': r.get('stats', {}).get('path_runs')})
+    return {'programs': len(results), 'disagreements_checked': len(diffs), 'dispatch_paths': npaths, 'engine': dict(stats)}
+
+REGISTRY['C12'] = c12_check
